@@ -232,20 +232,37 @@ def _doc_from_nodes(nodes, kind):
     return render.dfxp_doc([("en-US", [('begin="00:00:01.000" end="00:00:02.000"', body)])])
 
 
-def project_nodes(caption, cs=None):
+def _resolved(content, cs, depth):
+    """the rules a style node stands for: its own, and - when the caption set is given - those of
+    the classes it names (a class may name further classes)"""
+    if not isinstance(content, dict):
+        return {}
+    out = {}
+    if cs is not None and depth < 8:
+        names = content.get("classes") or ([content["class"]] if content.get("class") else [])
+        for name in names:
+            for k, v in _resolved(dict(cs.get_style(name)), cs, depth + 1).items():
+                out.setdefault(k, v)
+    for k, v in content.items():
+        if k not in ("class", "classes"):
+            out[k] = v
+    return out
+
+
+def project_nodes(caption, cs=None, outer_too=True):
     """cs given: a caption that is italic / bold / underlined as a whole (its own style or the class it
     names) is projected with an enclosing span"""
     from pycaption import CaptionNode
     out = []
     outer = []
-    if cs is not None:
+    if cs is not None and outer_too:
         st = dict(caption.style or {})
         cls = st.get("class")
         resolved = dict(cs.get_style(cls)) if cls else {}
         resolved.update({k: v for k, v in st.items() if k != "class"})
         outer = [k for k, name in KEY.items() if resolved.get(name)]
     if outer:
-        inner = project_nodes(caption)
+        inner = project_nodes(caption, cs, False)
         return [{"t": "S", "on": True, "st": outer}] + inner + [{"t": "S", "on": False, "st": outer}]
     for n in caption.nodes:
         if n.type_ == CaptionNode.TEXT:
@@ -253,7 +270,7 @@ def project_nodes(caption, cs=None):
         elif n.type_ == CaptionNode.BREAK:
             out.append({"t": "BR"})
         elif n.type_ == CaptionNode.STYLE:
-            st = [k for k, name in KEY.items() if isinstance(n.content, dict) and n.content.get(name)]
+            st = [k for k, name in KEY.items() if _resolved(n.content, cs, 0).get(name)]
             out.append({"t": "S", "on": bool(n.start), "st": st})
     return out
 
@@ -439,7 +456,8 @@ def execute(inp):
                 lg = cs.get_languages()[0]
                 caps = cs.get_captions(lg)
                 hop["reads"] = True
-                hop["back"] = [n for c in caps for n in project_nodes(c, cs if inp.get("capclass") else None)]
+                hop["back"] = [n for c in caps for n in project_nodes(c, cs if (inp.get("capclass") or inp.get("refs")) else None,
+                                                                       bool(inp.get("capclass")))]
         except Exception as e:
             hop["err"] = type(e).__name__ + ": " + str(e)[:200]
             hop["wf"] = False
